@@ -15,7 +15,7 @@ import re
 
 from .. import core, tlc, graph_cover, tlaval
 
-METHODS = ["borrow", "copy", "anchored", "read"]
+METHODS = ["borrow", "copy", "anchored", "read", "foreign"]
 FE, FD = 254, 253
 
 
@@ -231,6 +231,22 @@ def prod_inputs(rng, tier):
             _plant(buf, b3 + off, [FE, FD])
             out.append(buf)
         out.append(_filler(b3, rng))
+    # later chunks of many sizes: every interesting (low, high) pair of radix-253 header digits
+    lows = [0xFC, 0xF1, 0x80] if tier == "quick" else [0, 1, 2, 0x7F, 0x80, 0xF1, 0xFC]
+    highs = [0, 1, 0x0E] if tier == "quick" else [0, 1, 2, 0x0E, 0x7F, 0x80, 0xFC]
+    sizes = sorted({lo + 253 * hi for lo in lows for hi in highs if lo + 253 * hi < L2P})
+    group, total = [], 0
+    for sz in sizes + [None]:
+        if sz is None or total + sz > 90000:
+            if group:
+                buf = _filler(10, rng) + [FE, FD]
+                for g in group:
+                    buf += _filler(g, rng) + [FE, FD]
+                out.append(buf + _filler(3, rng))
+            group, total = [], 0
+        if sz is not None:
+            group.append(sz)
+            total += sz
     # FE/FD dense
     for n in ([300, 1000, 3000] if tier == "quick" else [300, 1000, 3000, 8000, 8000]):
         out.append([rng.choice([FE, FD, FE, FD, 0, 255]) for _ in range(n)])
@@ -413,12 +429,25 @@ def run_footprint(res, work, tier, seed):
             chosen.append(c)
     for kind, shape, m, drain in chosen:
         rid += 1
-        sizes = rng.choice([[1, 7, 1000, 65536, 300000], [65536], [300000, 1, 1, 7], [131072, 4096, 100, 1000]])
+        sizes = rng.choice([[1, 7, 1000, 65536, 300000], [65536], [300000, 1, 1, 7], [131072, 4096, 100, 1000],
+                            [3145728, 1500000, 5], [1048576]])
         t = total if shape != "dense" else total // 4          # dense = many tiny chunks: slower per byte
         if kind == "pipeline":
             t //= 2
         runs.append({"run": rid, "cfg": {"kind": kind, "shape": shape, "total": t, "sizes": sizes, "m": m,
                                          "drain": drain, "seed": rng.randrange(1 << 30)}, "ops": []})
+    # a producer with its own arena feeding small anchored blocks (the slice's anchor alone keeps its chunk alive),
+    # drained only every few calls so that one consume call crosses several slices and keep-alive anchors
+    for kind in ("enc", "pipeline"):
+        for drain in ("slices", "bytes", "read"):
+            rid += 1
+            runs.append({"run": rid, "cfg": {"kind": kind, "shape": rng.choice(shapes[:2]), "total": total // (8 if kind == "enc" else 16),
+                                             "sizes": rng.choice([[48], [48, 64, 65, 300, 5], [4000, 48]]), "m": "foreign",
+                                             "drain": drain, "drain_every": rng.choice([1, 8, 8]), "stride": 7, "seed": rng.randrange(1 << 30)}, "ops": []})
+    # the live counters are process-wide atomics: concurrent short histories must leave them at their baseline
+    rid += 1
+    runs.append({"run": rid, "cfg": {"kind": "mt", "shape": "ones", "total": 2000 if tier == "quick" else 30000, "sizes": [1],
+                                     "seed": 1}, "ops": []})
     for big in ([12 * mib] if tier == "quick" else [12 * mib, 96 * mib]):
         rid += 1
         runs.append({"run": rid, "cfg": {"kind": "sreader", "shape": "nostuff", "total": big, "sizes": [1], "big": big,
